@@ -159,6 +159,28 @@ def main(pid):
                              rerun=vlib.R("drv_resolve", "run", p, common={"alphabet": alpha, "prefixes": True}, fields=["g", "r", "pre"]))
         for tid, step, what in drifts:
             vd.spec_drift("Resolve", f"cfg=Full-sim path={paths[tid-1][0]} step={step} {what}")
+        # history: the same objects resolved AGAIN after the caller edited them (plaintiffs cleared): the second
+        # resolution is judged against the symbols with empty plaintiffs (alphabet extended by them)
+        alpha2, remap = list(alpha), {}
+        for i, sym in enumerate(alpha, 1):
+            if sym["k"] == "fc" and sym["pl"]:
+                alpha2.append({**sym, "pl": []})
+                remap[i] = len(alpha2)
+        epaths = [([remap.get(i, i) for i in p], 0, "") for p, _, _ in paths[:: (1 if thorough else 2)]
+                  if any(i in remap for i in p)]
+        eobs = vlib.impl_map("drv_resolve", "run_edit", [p for p, _, _ in paths[:: (1 if thorough else 2)] if any(i in remap for i in p)],
+                             common={"alphabet": alpha})
+        total_paths += len(epaths)
+        ev.cov["lists_resolved_again_after_an_edit"] = len(epaths)
+        fails, drifts = judge(alpha2, epaths, eobs, ev, "Full-sim-edit", batch=4000)
+        for tid, cl in fails:
+            if cl in mine:
+                p = epaths[tid - 1][0]
+                vd.violation(cl, {"alphabet_cfg": "Full, second resolution after the plaintiffs were cleared", "path": p,
+                                  "citations": [alpha2[i - 1] for i in p], "observed": eobs[tid - 1]}, signature(alpha2, p, cl),
+                             judge=vlib.J("Trace_Resolve", "Trace_Resolve.cfg", {"p": p, **{k: eobs[tid - 1][k] for k in ("g", "r", "pre")}}, wrap={"alpha": alpha2}))
+        for tid, step, what in drifts:
+            vd.spec_drift("Resolve", f"cfg=Full-sim-edit path={epaths[tid-1][0]} step={step} {what}")
     # beyond the listed properties: the driver loop with USER-SUPPLIED resolvers (ResolveGeneric.tla): TLC checks the
     # loop's laws for every input and callback outcome table, every input is replayed through the real
     # resolve_citations with table-driven callbacks, TLC validates the callbacks' own log and the result
